@@ -1,4 +1,4 @@
-SPECIFICATION Spec
+SPECIFICATION FairSpec
 CONSTANTS
   REQ = {1, 2, 3}
   T = 2
@@ -10,6 +10,6 @@ CONSTANTS
   PRICE = {10}
   QTY = {1}
   BUNDLE = {"lim"}
-INVARIANTS TypeOK AtMostOne ExactlyOnce Kind Attribution
-PROPERTIES Stable
+INVARIANTS TypeOK
+PROPERTIES Answers
 CHECK_DEADLOCK FALSE
